@@ -129,7 +129,8 @@ def _validate_shard(args):
     verdicts = {}
     for txt in _extract_prints(out, "VERDICT"):
         v = tlaval.parse(txt)
-        verdicts[v[1]] = {"lines": v[2], "fails": sorted(tuple(x) for x in v[3])}
+        verdicts[v[1]] = {"lines": v[2], "fails": sorted(tuple(x) for x in v[3]),
+                          "branches": sorted(tuple(x) for x in v[4]) if len(v) > 4 else []}
     if len(verdicts) != len(traces) or "Model checking completed. No error" not in out:
         keep = os.path.join(workdir, "failed_shard%03d.out" % idx)
         with open(keep, "w") as f:
